@@ -83,8 +83,15 @@ def structural(ctx, chk, tier):
             chk.hold("R02.1", "default-method:" + name, "default interpolation is linear", nontrivial=False)
         else:
             chk.violation("R02.1", q, "default-method", sorted(ms), "'linear'", ctx.where(q))
-    # ---------------- R02.1b population + R02.2 flip parity
-    for metric in METRICS:
+    flip_parity(ctx, chk)
+    chk.floor("R02.2", 72, "6 metrics x 4 configurations x 3 methods")
+    # ---------------- R02.3 interpolation core
+    core(ctx, chk)
+
+
+def flip_parity(ctx, chk, metrics=METRICS):
+    """R02.1b population + R02.2 flip parity."""
+    for metric in metrics:
         q = SCORES + ".threshold_at_" + metric
         for sc, ec in GAMMAS:
             rate = rate_term(ctx, chk, metric, sc, ec)
@@ -133,9 +140,6 @@ def structural(ctx, chk, tier):
                 if ok:
                     chk.hold("R02.2", inst, "%s %s with threshold: target %s, method %s" % (metric, "increases" if d > 0 else "decreases",
                                                                                              "kept" if d > 0 else "flipped", "kept" if d > 0 else "reversed"))
-    chk.floor("R02.2", 72, "6 metrics x 4 configurations x 3 methods")
-    # ---------------- R02.3 interpolation core
-    core(ctx, chk)
 
 
 def core(ctx, chk):
